@@ -1,8 +1,8 @@
 """Directory trees for the file-system properties, and the reference walk (C13's sentence as code)."""
 import os
 
-DIRN = ["sub", "aa", "ab", "ac", "core", "my-mod", "v1.2", "tests", "docs_src", "x.y", "CMakeStuff", "e_dir", "zz", "mods.cmake"]
-STEMS = ["a", "b", "top", "e1", "e2", "e3", "find-foo", "a.b", "Upper", "z_last", "m", "e4", "util", "pre.cmake.post", "x.cmake"]
+DIRN = ["sub", "aa", "ab", "ac", "core", "my-mod", "v1.2", "tests", "docs_src", "x.y", "CMakeStuff", "e_dir", "zz", "mods.cmake", "my dir", "dïr"]
+STEMS = ["a", "b", "top", "e1", "e2", "e3", "find-foo", "a.b", "Upper", "z_last", "m", "e4", "util", "pre.cmake.post", "x.cmake", "with space", "ünï-ß"]
 NONCMAKE = ["README.md", "x.cmake.in", "x.cmake.bak", "foo.cmakex", "Makefile", "cmake", "notes.txt", "cmake.txt",
             "CMakeLists.txt", "a.cmake~"]
 
